@@ -174,6 +174,45 @@ def doAnnounce (ss : Session) (r : Request) : Session × Resp :=
     ({ ss with state := .preRecord, path := r.path, nAnn := r.nAnn }, { status := ok, err := hErrOf r })
   else (ss, { status := r.hStatus, err := hErrOf r })
 
+def badResp : Resp := { status := badRequest, err := .fail }
+
+/-- SETUP: the checks between the choice of the transport and the `OnSetup` call, in the order of
+the code; `some res` = refused with that response. -/
+def setupChecks (ss : Session) (r : Request) (t : TrAlt) : Option Resp :=
+  let isRec := ss.state == .preRecord
+  if !isRec && r.track.isNone then some badResp                        -- getPathAndQueryAndTrackID
+  else if ss.state == .prePlay && r.path != ss.path then some badResp   -- ErrServerMediasDifferentPaths
+  else if ss.transport.isSome && ss.transport != some t.proto then some badResp
+  else if t.proto == .udp && !t.ports then some badResp
+  else if t.proto == .tcp && t.il == 2 then some badResp
+  else if t.proto == .tcp && t.il == 1 && chanInUse ss.chans t.ilA then some badResp
+  else if !isRec && t.mode == 2 then some badResp
+  else if isRec && t.proto == .mcast then some { status := Sess.statusUnsupportedTransport }
+  else if isRec && t.mode != 2 then some badResp
+  else none
+
+/-- SETUP after `OnSetup` answered 200: media lookup and bookkeeping. -/
+def setupMedia (cfg : Config) (ss : Session) (r : Request) (t : TrAlt) : Session × Resp :=
+  let isRec := ss.state == .preRecord
+  match r.track with
+  | none => bad ss        -- record: the URL matches no announced media
+  | some i =>
+    let found := if isRec then r.path == ss.path && i < ss.nAnn else i < cfg.nMedias
+    if !found then bad ss
+    else if ss.medias.contains i then bad ss
+    else
+      let ch := if t.proto == .tcp then (if t.il == 1 then t.ilA else findFreeChan ss.chans) else 0
+      ({ ss with
+          transport := some t.proto
+          medias := ss.medias ++ [i]
+          chans := ss.chans ++ [ch]
+          state := if ss.state == .initial then .prePlay else ss.state
+          path := if ss.state == .initial then r.path else ss.path },
+       -- the handler's error survives only in `prePlay`: in the other two states the variable
+       -- is overwritten (`err = stream.readerAdd(…)`, `localSSRCs, err = generateLocalSSRCs(…)`)
+       { status := ok, err := if ss.state == .prePlay then hErrOf r else .none,
+         chan := if t.proto == .tcp then some ch else none })
+
 def doSetup (cfg : Config) (ss : Session) (r : Request) : Session × Resp :=
   if !(ss.state == .initial || ss.state == .prePlay || ss.state == .preRecord) then bad ss
   else match r.trs with
@@ -182,36 +221,11 @@ def doSetup (cfg : Config) (ss : Session) (r : Request) : Session × Resp :=
     match pickTransport cfg ts with
     | none => (ss, { status := Sess.statusUnsupportedTransport })
     | some t =>
-      let isRec := ss.state == .preRecord
-      if !isRec && r.track.isNone then bad ss
-      else if ss.state == .prePlay && r.path != ss.path then bad ss
-      else if ss.transport.isSome && ss.transport != some t.proto then bad ss
-      else if t.proto == .udp && !t.ports then bad ss
-      else if t.proto == .tcp && t.il == 2 then bad ss
-      else if t.proto == .tcp && t.il == 1 && chanInUse ss.chans t.ilA then bad ss
-      else if !isRec && t.mode == 2 then bad ss
-      else if isRec && t.proto == .mcast then (ss, { status := Sess.statusUnsupportedTransport })
-      else if isRec && t.mode != 2 then bad ss
-      else if r.hStatus != ok then (ss, { status := r.hStatus, err := hErrOf r })
-      else
-        match r.track with
-        | none => bad ss        -- record: URL matches no announced media
-        | some i =>
-          let found := if isRec then r.path == ss.path && i < ss.nAnn else i < cfg.nMedias
-          if !found then bad ss
-          else if ss.medias.contains i then bad ss
-          else
-            let ch := if t.proto == .tcp then (if t.il == 1 then t.ilA else findFreeChan ss.chans) else 0
-            ({ ss with
-                transport := some t.proto
-                medias := ss.medias ++ [i]
-                chans := ss.chans ++ [ch]
-                state := if ss.state == .initial then .prePlay else ss.state
-                path := if ss.state == .initial then r.path else ss.path },
-             -- the handler's error survives only in `prePlay`: in the other two states the variable
-             -- is overwritten (`err = stream.readerAdd(…)`, `localSSRCs, err = generateLocalSSRCs(…)`)
-             { status := ok, err := if ss.state == .prePlay then hErrOf r else .none,
-               chan := if t.proto == .tcp then some ch else none })
+      match setupChecks ss r t with
+      | some res => (ss, res)
+      | none =>
+        if r.hStatus != ok then (ss, { status := r.hStatus, err := hErrOf r })
+        else setupMedia cfg ss r t
 
 /-- On the transition into play / record the handler's error is overwritten by the result of the
 `for _, sm := range ss.setuppedMedias { err = sm.start() … }` loop (nil), if there is a media. -/
